@@ -6,7 +6,6 @@
 static unsigned char g_snap[1 << 16]; static size_t g_snap_n; static uintptr_t g_snap_p;
 static void cap(const unsigned char* p, size_t n) { g_snap_n = n < sizeof g_snap ? n : sizeof g_snap; memcpy(g_snap, p, g_snap_n); }
 /* capture hook used only by `wipe`: the generic interposer scans; here we need the bytes */
-static unsigned char g_snap2[1 << 16];
 static int wipe_once(size_t size, unsigned char fillv, size_t* pn)
 {
 	blob_t b; size_t n; unsigned char* raw;
@@ -29,16 +28,22 @@ static int wipe_once(size_t size, unsigned char fillv, size_t* pn)
 }
 static void wipe_op(size_t size)
 {
-	size_t i, n = 0, stale = 0, first = 0; int fill = 0, hdr;
-	if (!wipe_once(size, 0xA5, &n)) { printf("not-released"); return; }
-	memcpy(g_snap2, g_snap, n < sizeof g_snap2 ? n : sizeof g_snap2);
-	if (!wipe_once(size, 0x5A, &n)) { printf("not-released"); return; }
+	/* an octet of the payload is reported stale only if it shows the fill value in EVERY one of five
+	   runs with different fills (a wiped octet does so with probability ~2^-32 per position) */
+	static const unsigned char F[5] = { 0xA5, 0x3C, 0xC3, 0x69, 0x5A };
+	static unsigned char same[1 << 16];
+	size_t i, n = 0, stale = 0, first = 0; int fill = 0, hdr, r;
+	memset(same, 1, sizeof same);
+	for (r = 0; r < 5; ++r)
+	{
+		if (!wipe_once(size, F[r], &n)) { printf("not-released"); return; }
+		for (i = 0; i < n && i < sizeof same; ++i) if (g_snap[i] != F[r]) same[i] = 0;
+	}
 	hdr = 1;
 	for (i = 0; i < sizeof(size_t); ++i) if (((unsigned char*)&size)[i] != g_snap[i]) hdr = 0;
 	for (i = 0; i + 8 <= n; ++i) if (memcmp(g_snap + i, "\x5A\x5A\x5A\x5A\x5A\x5A\x5A\x5A", 8) == 0) fill = 1;
-	/* an octet of the payload that shows the fill value of BOTH runs was not overwritten */
-	for (i = sizeof(size_t); i < sizeof(size_t) + size; ++i)
-		if (g_snap[i] == 0x5A && g_snap2[i] == 0xA5) { if (!stale) first = i; ++stale; }
+	for (i = sizeof(size_t); i < sizeof(size_t) + size && i < sizeof same; ++i)
+		if (same[i]) { if (!stale) first = i; ++stale; }
 	printf("len=%zu ptrmod=%u header_intact=%d fill_left=%d stale=%zu@%zu deltas=", n, (unsigned)(g_snap_p & 15), hdr, fill, stale, first);
 	for (i = 0; i + 1 < n; ++i) printf("%02x", (unsigned char)(g_snap[i + 1] - g_snap[i]));
 }
